@@ -269,18 +269,27 @@ def flat_block_leg(run, tmp):
     pair = fusion.write_pair(tmp, 'c03flat', src, ref, s, r, None, None)
     ph, pw = fusion.proc_window_shape(src, ref, True)
     lost = {}
-    for hv in (0, 4):
-        case = dict(i=960_000 + hv, op='flat source patch larger than a block', model='gain-offset', kernel=(3, 3), thresh=0.25, halvings=hv,
-                    src=src.to_dict(), ref=ref.to_dict())
+    # (a threshold of 0 - the bottom of the documented range - still in-paints the kernels that have no solution or a negative R2:
+    # as one block no pixel is lost with it either)
+    for hv, thr in ((0, 0.25), (4, 0.25), (0, 0.0)):
+        case = dict(i=960_000 + hv + (1 if thr == 0 else 0), op='flat source patch larger than a block', model='gain-offset', kernel=(3, 3),
+                    thresh=thr, halvings=hv, src=src.to_dict(), ref=ref.to_dict())
         try:
             res = fusion.run_fuse(pair.src_path, pair.ref_path, tmp / 'c03flat_out.tif', model='gain-offset', kernel_shape=(3, 3), param=False,
                                   threads=1, max_block_mem=fusion.block_mem_for(hv, ph, pw, src.px, ref.px, True) if hv else 100,
-                                  model_config=dict(upsampling='nearest'))
+                                  model_config=dict(upsampling='nearest', r2_inpaint_thresh=thr))
         except Exception as ex:
             run.fail(case, f'fusion raised {type(ex).__name__}: {ex}', signature=dict(kind='raises'))
             return
         run.evaluations += 1
         run.hist['flat-block cases (finding D25)'] += 1
+        if thr == 0:
+            lost0 = ~res.corr_mask
+            if lost0.any():
+                rr, cc = np.argwhere(lost0)[0]
+                run.fail(case, f'valid source pixel ({rr},{cc}) is invalid in the corrected image with r2_inpaint_thresh=0, one block ({int(lost0.sum())} lost pixels)',
+                         signature=dict(kind='lost-pixel', thresh=0))
+            continue
         lost[hv] = ~res.corr_mask
         inside = np.zeros((src.h, src.w), bool)
         inside[10:50, 12:52] = True
